@@ -1,8 +1,9 @@
 (* Property C18 — a truncated or damaged result file never compares as passed (PARTIAL).
    Proved here: the decision layer — whatever goes wrong while reading a damaged file (IOError, any other exception), or
    whatever content survives with a field or rows lost, the exit code is non-zero, in BOTH roles.
+   and the text structure of a cut csv table (C18_csv_truncated_differs).
    Not modelled (exercised exhaustively over cut positions by the check): expat, the raw-appended fallback parser,
-   np.genfromtxt on damaged input. *)
+   np.genfromtxt's typing of the cells of a damaged table. *)
 From Coq Require Import QArith Arith Bool List.
 From FC Require Import Model.Scalar Model.Predicates Model.Compare Model.Cli Model.CliFile Model.Codec Proofs.CompareP Proofs.CliP Proofs.CodecP.
 Import ListNotations.
@@ -53,6 +54,23 @@ Theorem C18_truncated_payload_rejected : forall (compress : bytes -> bytes) bo h
   truncated_ok x (read_uncompressed bo h e p).
 Proof. exact truncated_payload_rejected. Qed.
 Print Assumptions C18_truncated_payload_rejected.
+
+(* tables: a written table cut ANYWHERE before the end of its data (the final line break carries none) is never read as
+   the same names and cells — the reader model returns nothing, other names, fewer rows or a shortened cell; the decision
+   layer above (C18_lost_content_nonzero, and the value comparison of C01/C09 for a shortened cell) then fails it *)
+Theorem C18_csv_truncated_differs : forall names rows s p,
+  names <> [] -> Forall clean names -> Forall (fun r => r <> [] /\ Forall clean r) rows ->
+  write_table names rows = s ++ [newline] -> proper_prefix p s ->
+  read_table p <> Some (names, rows).
+Proof. exact csv_truncated_differs. Qed.
+Print Assumptions C18_csv_truncated_differs.
+
+(* ... while the complete data without the final line break is the same table (no false alarm on such files) *)
+Theorem C18_csv_complete_without_final_newline : forall names rows,
+  names <> [] -> Forall clean names -> Forall (fun r => r <> [] /\ Forall clean r) rows ->
+  exists s, write_table names rows = s ++ [newline] /\ read_table s = Some (names, rows).
+Proof. exact csv_roundtrip_without_final_newline. Qed.
+Print Assumptions C18_csv_complete_without_final_newline.
 
 Example C18_nonvacuous :
   let col n v := (n, n, {| kind := KF64; shape := [2]; data := [SF 1; SF v] |}) in
